@@ -130,16 +130,16 @@ let parse_xout o =
             | [toks; t; c] -> M.XREach (unhexs toks, unhex t, c = "1") | _ -> M.XRPanic)
   | _ -> M.XRPanic
 
-(* Round 6: sessions in which the reader returned by Rest is read only in part.
+(* Round 6 / 8: sessions in which the reader returned by Rest is read only in part.
      p<k>  Rest, and the first k bytes are read from the reader it returns      p<hex of the bytes read>
      q<k>  k more bytes from the reader the last Rest returned                   q<hex> (q- when there is none)
      t     Text and Complete, no call in between                                 t<hex>:<complete>
-   The extracted session functions (run_opsx, session_okx) know Rest only together with reading ALL of
-   its reader.  A session with one of these ops is stepped here, call by call, with the extracted next /
-   rest / reset_sc / scanner_split / scanner_each / text / complete / err_eof; the scanner's [inp] is
-   what its buffered reader still holds, so reading k bytes from the reader Rest returned (which IS that
-   buffered reader) leaves [inp] = the unread bytes.  Sessions without these ops go through run_opsx as
-   before, and a sample of them through this stepper as well (they must agree). *)
+   Since round 8 these are ops of the Coq session model (coq/Shell/ShellSessionExt.v: ERestPart,
+   EReadMore, EText next to the embedded calls of run_opsx); a session with one of them is run by the
+   EXTRACTED machine run_ext_st (the function of theorem C16_sessions_ext); this file only turns the
+   op letters into its ops and its observations into trace text.  Sessions without these ops go through
+   run_opsx as before, and a sample of them through run_ext_st as well (they must agree:
+   C16_ext_embeds_model). *)
 let optoks ops =
   let n = String.length ops in
   let rec go i acc =
@@ -156,50 +156,44 @@ let optoks ops =
 let is_ext toks = List.exists (fun (c, _) -> c = 'p' || c = 'q' || c = 't') toks
 let rec take_b k l = if k <= 0 then [] else match l with [] -> [] | x :: t -> x :: take_b (k - 1) t
 let rec drop_b k l = if k <= 0 then l else match l with [] -> [] | _ :: t -> drop_b (k - 1) t
-(* observations (as trace text) and the scanner afterwards (None: the model panicked) *)
-let run_ext src sc toks =
-  let rec go sc have toks acc =
-    match toks with
-    | [] -> (List.rev acc, Some sc)
-    | (c, k) :: r ->
-      let tag = String.make 1 c in
-      (match c with
-       | 'n' -> (match M.next sc with
-           | None -> (List.rev ("PANIC" :: acc), None)
-           | Some (sc', ok) -> go sc' have r (show_xout tag (M.XRNext (ok, M.text sc', M.complete sc')) :: acc))
-       | 'r' -> let (sc', b) = M.rest sc in go sc' true r (("r" ^ hex b) :: acc)
-       | 'p' -> let (sc', b) = M.rest sc in
-         go { sc' with M.inp = drop_b k b } true r (("p" ^ hex (take_b k b)) :: acc)
-       | 'q' -> if have then go { sc with M.inp = drop_b k sc.M.inp } have r (("q" ^ hex (take_b k sc.M.inp)) :: acc)
-         else go sc have r ("q-" :: acc)
-       | 't' -> go sc have r (("t" ^ hex (M.text sc) ^ ":" ^ b01 (M.complete sc)) :: acc)
-       | 'e' -> go sc have r (show_xout tag (M.XRErr (M.err_eof sc)) :: acc)
-       | 'z' -> go (M.reset_sc sc src) false r ("z" :: acc)
-       | 's' -> (match M.scanner_split sc with
-           | None -> (List.rev ("PANIC" :: acc), None)
-           | Some (sc', toks') -> go sc' have r (show_xout tag (M.XRSplit (toks', M.text sc', M.complete sc')) :: acc))
-       | _ -> (match xop_of_char c with
-           | Some (M.XEach stop) -> (match M.scanner_each sc stop with
-               | None -> (List.rev ("PANIC" :: acc), None)
-               | Some (sc', toks') -> go sc' have r (show_xout tag (M.XREach (toks', M.text sc', M.complete sc')) :: acc))
-           | _ -> go sc have r acc)) in
-  go sc false toks []
+let nat_k k = let rec go n acc = if n <= 0 then acc else go (n - 1) (M.S acc) in go k M.O
+(* the op of the extended session machine a token stands for (its letter kept for the output tag) *)
+let eop_of (c, k) = match c with
+  | 'p' -> Some (M.ERestPart (nat_k k)) | 'q' -> Some (M.EReadMore (nat_k k)) | 't' -> Some M.EText
+  | _ -> (match xop_of_char c with Some o -> Some (M.EOp o) | None -> None)
+let show_eout tag = function
+  | M.EROut o -> show_xout tag o
+  | M.ERPart b -> "p" ^ hex b
+  | M.ERMore b -> "q" ^ hex b
+  | M.ERText (t, c) -> "t" ^ hex t ^ ":" ^ b01 c
+let etoks toks = List.filter_map (fun (c, k) -> match eop_of (c, k) with Some o -> Some (String.make 1 c, o) | None -> None) toks
+let show_eouts tags outs =
+  let rec zip ts os = match ts, os with
+    | t :: ts', o :: os' -> show_eout t o :: zip ts' os'
+    | _, _ -> [] in
+  zip tags outs
+(* observations (as trace text) and the state afterwards (None: the model panicked): the extracted run_ext_st *)
+let run_ext src (x : M.ext) toks =
+  let tl = etoks toks in
+  let (outs, fin) = M.run_ext_st src x (List.map snd tl) in
+  (show_eouts (List.map fst tl) outs, fin)
+let ext_of sc = { M.esc = sc; M.ehave = false }
 
 let eval_session = memo1 (fun (s, rest) ->
     let opstr = match rest with [o] -> o | _ -> "" in
     let toks = optoks opstr in
     let src = unhex s in
-    if is_ext toks then String.concat ";" (fst (run_ext src (M.new_scanner src) toks)) else begin
+    if is_ext toks then String.concat ";" (fst (run_ext src (M.new_ext src) toks)) else begin
     let ops = xops_of rest in
     let outs = M.run_opsx src (M.new_scanner src) ops in
     let rec zip cs outs = match cs, outs with
       | c :: cs', o :: outs' -> show_xout (String.make 1 c) o :: zip cs' outs'
       | _, _ -> [] in
     let res = String.concat ";" (zip (xchars_of rest) outs) in
-    (* the stepper of the round-6 sessions, on a sample of the ordinary ones: it must say what run_opsx says *)
+    (* the extended session machine on a sample of the ordinary sessions: it must say what run_opsx says *)
     if (String.length s + 7 * String.length opstr) mod 5 = 0 && String.length s < 400
-       && String.concat ";" (fst (run_ext src (M.new_scanner src) toks)) <> res
-    then "EXC:the driver's call-by-call stepper and the extracted run_opsx disagree: " ^ res
+       && String.concat ";" (fst (run_ext src (M.new_ext src) toks)) <> res
+    then "EXC:the extracted run_ext_st and the extracted run_opsx disagree: " ^ res
     else res end)
 
 (* K lines (round 4): a history of Quote / Join / Split(Join) / Split calls in one process over the
@@ -289,16 +283,22 @@ let parse_m = function
      with _ -> None)
   | _ -> None
 let eval_m_ext m =
-  (* a session with round-6 ops: the call-by-call stepper for both sessions *)
+  (* a session with round-6 ops: ONE run of the extracted machine run_ext_st over
+       ops1 ++ [Reset; Text/Complete; Err] ++ ops2
+     with the second input as the input a Reset goes to (ops1 holds no Reset: mtoks).  The three calls in
+     the middle are printed as the Z observation. *)
   let start = if m.m_nil then M.pool_new else M.new_scanner (if m.m_pre then take_n m.m_k m.m_src1 else m.m_src1) in
-  let (o1, st1) = run_ext m.m_src1 start m.m_t1 in
-  let outs1 = if m.m_pre then ["P"] else o1 in
-  match st1 with
-  | None -> String.concat ";" outs1
-  | Some sc1 ->
-    let scz = M.reset_sc sc1 m.m_src2 in
-    let z = "Z" ^ hex (M.text scz) ^ ":" ^ b01 (M.complete scz) ^ ":" ^ (if M.err_eof scz then "e1" else "e0") in
-    String.concat ";" (outs1 @ z :: fst (run_ext m.m_src2 scz m.m_t2))
+  let t1 = etoks m.m_t1 and t2 = etoks m.m_t2 in
+  let mid = [("z", M.EOp M.XReset); ("t", M.EText); ("e", M.EOp M.XErr)] in
+  let (outs, _) = M.run_ext_st m.m_src2 (ext_of start) (List.map snd (t1 @ mid @ t2)) in
+  let n1 = List.length t1 in
+  let o1 = take_n n1 outs and rest = kdrop n1 outs in
+  let outs1 = if m.m_pre then ["P"] else show_eouts (List.map fst t1) o1 in
+  match rest with
+  | M.EROut M.XRReset :: M.ERText (t, c) :: M.EROut (M.XRErr e) :: o2 ->
+    let z = "Z" ^ hex t ^ ":" ^ b01 c ^ ":" ^ (if e then "e1" else "e0") in
+    String.concat ";" (outs1 @ z :: show_eouts (List.map fst t2) o2)
+  | _ -> String.concat ";" outs1          (* the model panics in the first session: its last observation says so *)
 let eval_m m =
   if is_ext m.m_t1 || is_ext m.m_t2 then eval_m_ext m else
   let ops1 = List.filter_map xop_of_char m.m_c1 and ops2 = List.filter_map xop_of_char m.m_c2 in
@@ -392,7 +392,7 @@ let only_nr rest = match rest with [o] -> String.for_all (fun c -> c = 'n' || c 
        NewScanner / Reset, no token and not Complete after Rest, else what the last Next / Split / Each
        observation reported): an observation t must repeat it.
    Independent of the model: only the reference tokenizer (through ref_stepx) is consulted. *)
-let spec_ext src toks (outs : string list) : string option =
+let spec_ext_walk src toks (outs : string list) : string option =
   let q = ref (M.RActive (src, true)) and unread = ref [] and have = ref false and tc = ref ([], true) in
   let body o = String.sub o 1 (String.length o - 1) in
   let stepx op ob = match M.ref_stepx src !q op ob with Some q' -> q := q'; true | None -> false in
@@ -445,6 +445,31 @@ let spec_ext src toks (outs : string list) : string option =
               go (i + 1) toks' outs' end)
        with _ -> at "bad output syntax") in
   go 1 toks outs
+
+(* Round 8: the same judgement by the reference of theorem C16_sessions_ext, extracted
+   (ShellSessionExt.session_ok_ext: ref_stepx for the old calls, the unread part of the handed-out reader,
+   the last Text / Complete).  Both must accept: the walk above words the reason, the extracted function is
+   the one the theorem speaks about; a disagreement between the two is itself reported. *)
+let parse_eout c o =
+  let n = String.length o in
+  let tail () = String.sub o 1 (n - 1) in
+  match c with
+  | 'p' -> if n > 1 && o.[0] = 'p' then (try M.ERPart (unhex (tail ())) with _ -> M.EROut M.XRPanic) else M.EROut M.XRPanic
+  | 'q' -> if n > 1 && o.[0] = 'q' then (try M.ERMore (unhex (tail ())) with _ -> M.EROut M.XRPanic) else M.EROut M.XRPanic
+  | 't' -> (match (if n > 1 && o.[0] = 't' then String.split_on_char ':' (tail ()) else []) with
+            | [t; cm] when cm = "0" || cm = "1" -> (try M.ERText (unhex t, cm = "1") with _ -> M.EROut M.XRPanic)
+            | _ -> M.EROut M.XRPanic)
+  | _ -> (try M.EROut (parse_xout o) with _ -> M.EROut M.XRPanic)
+let spec_ext src toks (outs : string list) : string option =
+  let tl = List.filter (fun (c, k) -> eop_of (c, k) <> None) toks in
+  let thm =
+    List.length tl = List.length outs
+    && M.session_ok_ext src (List.filter_map eop_of tl) (List.map2 (fun (c, _) o -> parse_eout c o) tl outs) in
+  match spec_ext_walk src toks outs, thm with
+  | None, true -> None
+  | Some r, false -> Some r
+  | None, false -> Some "rejected by the extracted reference session_ok_ext of theorem C16_sessions_ext (the driver's own walk accepts: the two readings of the property disagree)"
+  | Some r, true -> Some (r ^ " [the extracted session_ok_ext accepts: the two readings of the property disagree]")
 
 (* a session judged: by the extracted session_okx, or (round-6 ops) by the walk above *)
 let session_judge src toks (outs : string list) : string option =
